@@ -12,7 +12,11 @@
 // blank line + indented line pair that continues a definition / list item / note (one composite kind keeps 4-line structures inside L=3).
 static const char * K[] = {"ztext [^a] [#a] [?a] [>a] [a][]\n", "    code\n", "\tcode\n", "* zitem\n", "1. zitem\n", "> zquote\n", "```\n", "````\n", "`````\n", "```perl\n",
 	"a | b\n", "--|--\n", ": def\n", "key: value\n", "<div>\n", "<span>x</span>\n", "\n", "***\n", "===\n", "---\n", "# zhead\n", "[a]: http://x\n",
-	"[^a]: note\n", "[#a]: cite\n", "[?a]: gloss\n", "[>a]: abbr\n", "{{TOC}}\n", "<!--\n", "-->\n", "  ztext\n", "+\n", "|\n", "\n    zmore\n", "* key: zitem\n", "> key: zquote\n"};
+	"[^a]: znote\n", "[#a]: zcite\n", "[?a]: zgloss\n", "[>a]: abbr\n", "{{TOC}}\n", "<!--\n", "-->\n", "  ztext\n", "+\n", "|\n", "\n    zmore\n", "* key: zitem\n", "> key: zquote\n",
+	// a reference definition as the indented continuation of whatever precedes it (list item, definition, note)
+	"\n    [^a]: znote\n", "\n    [a]: http://y\n",
+	// a note that is called only from inside another note
+	"\n[^a]: znote [^b]\n", "[^b]: zinner\n"};
 static const int NK = sizeof(K) / sizeof(K[0]);
 
 struct Stats { long docs = 0, conv = 0, nontrivial = 0, failures = 0; std::vector<std::string> samples; std::vector<std::string> fails; } S;
@@ -24,33 +28,50 @@ static std::string esc(const std::string & s) { std::string o; for (char c : s) 
 // assembled: the word of a plain line, list item, quote line or ATX heading -- unless the line can legitimately be swallowed by what
 // precedes it (the metadata block at the start of the document, a definition that nobody calls, a raw HTML block or comment, an open
 // fence), all of which end at a blank line.  A plain line directly after a link definition is the known lazy-continuation finding.
+static std::vector<std::string> g_need, g_need_html;
 static std::vector<std::string> needed_words(const std::vector<int> & ks) {
-	std::vector<std::string> need; bool swallow = false, in_def = false, in_comment = false, after_blank = true;
+	std::vector<std::string> need; bool swallow = false, in_def = false, in_comment = false, after_blank = true; bool called = false, meta_open = false, no_html_defs = false, prev_def_ok = false;
+	g_need_html.clear(); std::vector<int> defs;
 	for (size_t i = 0; i < ks.size(); i++) {
 		int k = ks[i];
+		if (k == 37 && !in_comment) { swallow = false; after_blank = true; meta_open = false; }      // this kind begins with a blank line
+		bool starts_block = after_blank;
+		if (k == 27 || k == 28 || (k >= 6 && k <= 9) || k == 14) no_html_defs = true;      // comments, fences and raw HTML blocks can hold any later line: no claim about definitions then
 		if (k == 27) { in_comment = true; continue; }                                     // an HTML comment runs until its closer, across blank lines
 		if (k == 28) { in_comment = false; swallow = true; continue; }
 		if (in_comment) continue;
-		if (k == 16) { swallow = false; after_blank = true; continue; }                   // blank line
+		if (k == 16) { swallow = false; after_blank = true; meta_open = false; continue; }                   // blank line
 		if (k == 32) {                                                                    // blank + indented line: code, or the continuation of a definition
 			if (in_def) swallow = true; else { swallow = false; need.push_back("zmore"); }
 			after_blank = false; continue;
 		}
-		bool is_def = (k >= 21 && k <= 25);
+		if (k == 35 || k == 36) { swallow = true; in_def = true; after_blank = false; continue; }      // blank + indented definition
+		bool is_def = (k >= 21 && k <= 25) || k == 37 || k == 38;
 		if (after_blank && k != 1 && k != 2 && !is_def) in_def = false;                    // an unindented line after a blank line ends a definition
 		after_blank = false;
-		if (i == 0 && (k == 13 || k == 19)) { swallow = true; continue; }                 // metadata (possibly behind a --- fence) runs to the first blank line
+		if (i == 0 && (k == 13 || k == 19)) { swallow = true; meta_open = true; continue; }                 // metadata (possibly behind a --- fence) runs to the first blank line
 		if (k == 14 || k == 15 || (k >= 6 && k <= 9)) { swallow = true; continue; }       // raw HTML block, fence opener / closer
-		if (is_def) { swallow = true; in_def = true; continue; }                          // a definition and its lazy continuation lines are printed only if it is called
+		if (is_def) { if (!meta_open && ((!swallow && starts_block) || prev_def_ok)) { defs.push_back(k); prev_def_ok = true; } else prev_def_ok = false; swallow = true; in_def = true; continue; }
+		prev_def_ok = false;                          // a definition and its lazy continuation lines are printed only if it is called
 		if (swallow) continue;
+		if (k == 0) called = true;                                                         // this line calls [^a] [#a] [?a]
 		if (k == 0 || k == 29) need.push_back("ztext");
 		else if (k == 3 || k == 4 || k == 33) need.push_back("zitem");
 		else if (k == 5 || k == 34) need.push_back("zquote");
 		else if (k == 20) need.push_back("zhead");
 	}
+	// HTML prints the text of every definition that the plain line calls (note, citation and glossary lists); a note called only from
+	// inside another note is printed as well.  Only definitions that start a block of their own and are the first of their label count.
+	if (called && !no_html_defs) {
+		auto has = [&](int k) { for (int d : defs) if (d == k) return true; return false; };
+		auto first_a = [&]() { for (int d : defs) if (d == 22 || d == 37) return d; return -1; };
+		if (first_a() != -1) g_need_html.push_back("znote");
+		if (has(23)) g_need_html.push_back("zcite");
+		if (has(24)) g_need_html.push_back("zgloss");
+		if (first_a() == 37 && has(38)) g_need_html.push_back("zinner");
+	}
 	return need;
 }
-static std::vector<std::string> g_need;
 
 static void run_doc(const std::string & doc, int len, bool first_plain) {
 	S.docs++;
@@ -62,6 +83,7 @@ static void run_doc(const std::string & doc, int len, bool first_plain) {
 		if (r.failure.empty() && first_plain && (f <= 4) && out.find("ztext") == std::string::npos) { r.failure = "text-lost"; r.detail = "first plain line does not appear in the output"; }
 		if (r.failure.empty() && f <= 4) {
 			for (const std::string & w : g_need) if (out.find(w) == std::string::npos) { r.failure = "word-lost:" + w; r.detail = "the word '" + w + "' of a line that is always printed does not appear in the output"; break; }
+			if (r.failure.empty() && f == 0 && m == 0) for (const std::string & w : g_need_html) if (out.find(w) == std::string::npos) { r.failure = "word-lost:" + w; r.detail = "the text '" + w + "' of a definition that the document calls does not appear in the HTML output"; break; }
 		}
 		if (!r.failure.empty()) {
 			S.failures++;
